@@ -238,3 +238,23 @@ def bounded(tier, seed):
                     "explicit files bypass exclusions but not the size limit; glob results pass the same filters; distinct = distinct "
                     "reference results",
             "exhaustive": False, "bound": "%d trees" % n}
+
+
+def witnesses():
+    """recorded findings of C17, replayed on small trees"""
+    from flowmark.file_resolver import FileResolver, FileResolverConfig
+    out = {}
+    base = scratch_dir("vf-c17w-")
+    try:
+        for rel, content in (("a/skip.md", "x"), (".flowmarkignore", "skip.md\n"), ("build2/x.md", "x"), ("sub/build2/y.md", "y"), ("k.md", "k")):
+            os.makedirs(os.path.dirname(os.path.join(base, rel)) or base, exist_ok=True)
+            with open(os.path.join(base, rel), "w") as fh:
+                fh.write(content)
+        with in_dir(base):
+            r1 = [os.path.relpath(str(p), os.path.realpath(base)) for p in FileResolver(FileResolverConfig(force_exclude=True, respect_gitignore=False)).resolve(["a/skip.md"])]
+            r2 = [os.path.relpath(str(p), os.path.realpath(base)) for p in FileResolver(FileResolverConfig(extend_exclude=["/build2/"], respect_gitignore=False)).resolve(["."])]
+        out["C17-force-exclude-skips-tool-ignore"] = r1 == ["a/skip.md"]
+        out["C17-anchored-exclusion-matches-nested-name"] = "sub/build2/y.md" not in r2 and "build2/x.md" not in r2 and "k.md" in r2
+    finally:
+        shutil.rmtree(base, ignore_errors=True)
+    return out
